@@ -318,6 +318,21 @@ def check_upstream(ctx, prog):
 
 
 FIXED = [
+    # nested class named like a module-level class; a method returns the
+    # module-level one (fix 3694df8)
+    """class Node:
+  v = 1
+class Outer:
+  class Node:
+    w = "s"
+    def up(self):
+      return Node()
+    def me(self):
+      return self
+n = Outer.Node()
+o = n.up()
+p = n.me()
+""",
     # a nested class sharing its name with a module-level class
     """class Node:
   v = 1
